@@ -118,9 +118,17 @@ impl Alpha {
 		.boxed()
 	}
 	pub fn pattern(&self, neg: f64) -> BoxedStrategy<String> {
-		(self.positive_pattern(), proptest::bool::weighted(neg))
-			.prop_map(|(p, n)| if n { format!("!{p}") } else { p })
-			.boxed()
+		let real = (self.positive_pattern(), proptest::bool::weighted(neg)).prop_map(|(p, n)| if n { format!("!{p}") } else { p });
+		// lines that must have no effect: comments (also ones that look like a pattern) and blank lines
+		let noop = prop_oneof![
+			Just("# a comment".to_string()),
+			Just(String::new()),
+			Just("   ".to_string()),
+			self.any().prop_map(|n| format!("#{n}")),
+			Just("#*".to_string()),
+			Just("#!keep".to_string()),
+		];
+		prop_oneof![15 => real, 1 => noop].boxed()
 	}
 	pub fn rel_path(&self, max_depth: usize) -> BoxedStrategy<Vec<String>> {
 		(proptest::collection::vec(self.dir(), 0..max_depth), self.any())
